@@ -555,15 +555,17 @@ def out_scalings(spec, flat):
             x = fr(x)
             return list(x) if isinstance(x, list) else [x] * n
         if v['auto']:
-            res.append(([F(0)] * n, [F(1)] * n, None))
+            res.append(([F(0)] * n, [F(1)] * n, None, True))
         else:
-            res.append((bc(v.get('ref0'), 0), bc(v.get('ref'), 1), bc(v.get('res_ref'), None)))
+            res.append((bc(v.get('ref0'), 0), bc(v.get('ref'), 1), bc(v.get('res_ref'), None),
+                        spec['comps'][v['comp']]['kind'] != 'imp'))
     return res
 
 
 def gallina_oscals(spec, flat):
-    return '[%s]' % '; '.join('(mkoscal %s %s %s)' % (qvec(a), qvec(b), 'None' if c is None else '(Some %s)' % qvec(c))
-                              for a, b, c in out_scalings(spec, flat))
+    return '[%s]' % '; '.join('(mkoscal %s %s %s %s)' % (qvec(a), qvec(b), 'None' if c is None else '(Some %s)' % qvec(c),
+                                                       'true' if e else 'false')
+                              for a, b, c, e in out_scalings(spec, flat))
 
 
 # ------------------------------------------------------------------------------------ flat algebra
